@@ -155,6 +155,7 @@ func runC07(r *core.Run) {
 		add("S8", []string{rich}, 1, "func") // statement granularity in the thorough tier
 		add("S9", []string{rich}, 1, "stmt")
 		add("S10", []string{"all+cjk"}, 1, "stmt")
+		add("S11", []string{rich}, 1, "func")
 	} else {
 		add("S0", three, 2, "stmt")
 		add("S0", []string{"core", rich}, 3, "func")
@@ -176,6 +177,7 @@ func runC07(r *core.Run) {
 		add("S9", three, 1, "stmt")
 		add("S10", []string{"core", "gfm", "all+cjk", "custom"}, 1, "stmt")
 		add("S9", []string{"core"}, 2, "func")
+		add("S11", []string{"core", rich}, 1, "stmt")
 	}
 
 	if only := os.Getenv("VERIF_C07_ONLY"); only != "" {
@@ -329,7 +331,7 @@ func c07RacePass(r *core.Run, b *c07Build) {
 	var tasks []rt
 	rounds := core.Pick(r, 20, 100)
 	procs := core.Pick(r, 3, 8)
-	for _, sc := range []string{"S1", "S2", "S4", "S5", "S6", "S7", "S8", "S9", "S10"} {
+	for _, sc := range []string{"S1", "S2", "S4", "S5", "S6", "S7", "S8", "S9", "S10", "S11"} {
 		for _, c := range []string{"core", "all+cjk+autoid+attr", "custom+autoid+attr+xhtml+hardwraps"} {
 			if sc == "S7" && c != "core" || c[0] == 'c' && c[1] == 'u' && sc != "S2" && sc != "S5" {
 				continue
